@@ -22,6 +22,8 @@ HEADERS = st.one_of(
     st.builds(lambda fp, t: ref_openpgp.default_headers(fp.hex(), t), st.binary(min_size=20, max_size=20),
               st.integers(0, 2 ** 32 - 1)),
     st.sampled_from([1, 2, 255, 256, 257]).flatmap(lambda n: st.binary(min_size=n, max_size=n)),
+    # long hashed areas (notation data, policy URLs): the two-octet subpacket length allows up to 65535 octets
+    st.sampled_from([261, 262, 300, 1000, 5000, 65535]).flatmap(lambda n: st.binary(min_size=n, max_size=n)),
 )
 
 
@@ -81,7 +83,10 @@ def envelopes(draw, payloads=None, gpg=None, min_keys=1, max_keys=5, force_lower
     if gpg is None:
         gpg = draw(st.booleans())
     B = canon(payload)
-    seeds = draw(keys.seed_lists(min_size=max(2, min_keys), max_size=max_keys))
+    many = max_keys >= 5 and draw(st.integers(0, 7)) == 0
+    # one case in eight is "big": 9-24 signers and 20-60 more authorized keys (cut-offs of the kind "more than 8 candidates",
+    # "more than 16 authorized keys", "at most 32 entries examined" are only reached by such envelopes)
+    seeds = keys.derived_seeds(draw(st.integers(0, 2 ** 32)), draw(st.integers(9, 24))) if many else draw(keys.seed_lists(min_size=max(2, min_keys), max_size=max_keys))
     pubs = [keys.pub_hex(s) for s in seeds]
     outsider = draw(keys.seeds.filter(lambda s: s not in seeds))
     sigs = []
@@ -142,6 +147,8 @@ def envelopes(draw, payloads=None, gpg=None, min_keys=1, max_keys=5, force_lower
     for _ in range(draw(st.integers(0, 3))):
         sigs.append([draw(G.strings), draw(JUNK_VALUES), "junk"])
     # authorized list: shuffle, ghosts, duplicates
+    if many:
+        authorized += keys.derived_ghosts(draw(st.integers(0, 2 ** 32)), draw(st.integers(20, 60)))
     for _ in range(draw(st.integers(0, 2))):
         authorized.append(draw(keys.ghost_keys))
     if authorized and draw(st.integers(0, 3)) == 0:
